@@ -10,7 +10,8 @@ EXPLANATION = (
     'before the inserts) so that departed data centres are never selected again; N2 the result cache is cleared on every path through the '
     'update arm; N3 every bulk collection site of DCAwareSelector::select_nodes filters the local node (the iterator type handed to '
     'extend contains a Filter whose closure is `item != local_node`); N4 select_n_nodes returns Ok only on the edge selected.len() >= n. '
-    'NOT decided: that enough nodes are found whenever they exist (cursor history and integer division — value level; known to fail '
+    'N5 the candidate iterator of every bulk collection site carries no skipping adaptor (Skip / SkipWhile / StepBy / TakeWhile) and no filter other than '
+    'the local-node one: every other live node of the data centre is a candidate, whatever selections were made before. NOT decided: that enough nodes are found whenever they exist (cursor history and integer division — value level; known to fail '
     'for One-then-Two on a 3-node data centre, invisible to static analysis), absence of duplicates, exact n.')
 ASSUMPTIONS = ['a data-centre node list handed to the selector has no duplicate addresses']
 
@@ -165,6 +166,18 @@ def check_N3(ctx, facts):
             ctx.ob('C15.N3', 'extend#%d' % idx, good, site(g, t['cs']),
                    'collected iterator carries a Filter(item != local_node)' if good else
                    'nodes are collected from an iterator without the `item != local_node` filter: the local node can be returned as its own replica')
+            # N5: the candidate list is the whole node list of the data centre (minus the local node)
+            # (a Skip applied directly to a Cycle is a rotation: nothing is dropped for good)
+            drops = re.findall(r'adapters::(skip::Skip|skip_while::SkipWhile|step_by::StepBy|take_while::TakeWhile)<(?!core::iter::adapters::cycle::Cycle<)', arg_ty)
+            n_filters = arg_ty.count('filter::Filter<')
+            n_local = len([c for c in cls if c in by_ty and is_local_node_filter(*by_ty[c])])
+            good5 = not drops and n_filters <= n_local
+            ctx.ob('C15.N5', 'extend#%d|every-node-is-a-candidate' % idx, good5, site(g, t['cs']),
+                   'the candidates are the data centre\'s whole node list minus the local node (no skipping adaptor, no other filter)' if good5 else
+                   'the candidate iterator %s: live nodes other than the local one are invisible to this selection, so it can '
+                   'report NotEnoughNodes (or return fewer than the level requires) although enough live nodes exist — e.g. after earlier '
+                   'selections advanced a cursor the list is skipped by' % ('drops elements through ' + ', '.join(sorted(set(d.split('::')[1] for d in drops))) if drops
+                                                                           else 'carries a filter other than `item != local_node`'))
     ctx.floor('C15.N3', 'bulk collection sites', n, 4)
 
 
